@@ -129,3 +129,7 @@ func TestC19Conc(t *testing.T) {
 func TestC12(t *testing.T) { RunProp(t, "C12", "serverhandshake", genServerHSCase, checkC12) }
 
 func TestC13(t *testing.T) { RunProp(t, "C13", "origin", genOriginCase, checkC13) }
+
+func TestC14(t *testing.T) { RunProp(t, "C14", "clienthandshake", genClientHSCase, checkC14) }
+
+func TestC15(t *testing.T) { RunProp(t, "C15", "compression-agreement", genCompCase, checkC15) }
